@@ -190,6 +190,10 @@ impl Table {
         self.0.insert(key, entry.to_entry())
     }
 
+    pub fn insert_if_absent(&self, key: Hash, entry: EntryView) {
+        self.0.insert_if_absent(key, entry.to_entry())
+    }
+
     pub fn find(&self, key: Hash) -> Option<EntryView> {
         self.0.find(key).map(|e| EntryView::from_entry(&e))
     }
